@@ -31,12 +31,12 @@ cp "$S/patch.diff" /verif/seeded/$name/patch.diff
 cp "$demo_file" /verif/seeded/$name/
 cp "$S/README.md" /verif/seeded/$name/README.md 2>/dev/null
 cp "$S/demo_path.txt" /verif/seeded/$name/ 2>/dev/null
-cleanup; trap - EXIT
-# run the checks against /repo with the change applied
-cd /repo && git diff --quiet || { echo "/repo dirty"; exit 2; }
-git apply "$S/patch.diff" || exit 2
-trap 'git -C /repo checkout -- . ; git -C /repo clean -fdq; find /verif/replays -type f ! -name .gitkeep -delete' EXIT
+# run the checks against the scratch worktree with the change applied (VERIF_REPO): /repo itself stays
+# untouched, so background runs that rebuild from /repo are not disturbed
+cd $W && git apply "$S/patch.diff" || exit 2
+rm -f "$W/$demo_rel"
+trap 'cleanup; find /verif/replays -type f ! -name .gitkeep -delete' EXIT
 for p in "$@"; do
-  out=$(cd /verif && python3 bin/check run "$p" 2>&1); rc=$?
+  out=$(cd /verif && VERIF_REPO=$W python3 bin/check run "$p" 2>&1); rc=$?
   echo "== seeded/$name $p exit=$rc"; echo "$out" | grep -aE "ORACLE|VIOLATION|INCONCLUSIVE|quick:" | grep -av "rapid\] failed" | head -3 | cut -c1-400
 done
